@@ -466,7 +466,7 @@ func (a *Adversary) Act(r *Runner) {
 	if len(tg) == 0 {
 		return
 	}
-	strat := []string{"pp", "pp", "votes", "votes", "votes", "rc", "rc-forged", "pp-forged", "decided", "decided-forged", "replay", "replay-rejust", "garbage"}[a.Rng.Intn(13)]
+	strat := []string{"pp", "pp", "votes", "votes", "votes", "rc", "rc-forged", "pp-forged", "decided", "decided-forged", "replay", "replay-rejust", "garbage", "pp-nonleader", "pp-nonleader"}[a.Rng.Intn(15)]
 	a.StratCount[strat]++
 	switch strat {
 	case "pp", "pp-forged":
@@ -486,6 +486,31 @@ func (a *Adversary) Act(r *Runner) {
 			}
 
 			break
+		}
+	case "pp-nonleader":
+		// a proposal for the targets' current or next round from a coalition member that does NOT lead
+		// that round, carrying a value of the coalition's own, without justification, backed by the
+		// coalition's votes (only the designated leader's proposal may ever be acted on, also right after
+		// a failed comparison, when the next round's proposal needs no justification)
+		round := r.S.Procs[tg[0]].Round + a.Rng.Int63n(2)
+		l := Leader(a.Inst, round, a.N)
+		src := int64(-1)
+		for _, b := range a.Byz {
+			if b != l {
+				src = b
+			}
+		}
+		if src < 0 {
+			return
+		}
+		val := a.Values[a.Rng.Intn(2)] // 91 / 92: values no honest member holds
+		pp := a.mk(qbft.MsgPrePrepare, src, round, val, 0, 0, nil)
+		for _, id := range tg {
+			r.Inject(id, pp)
+			for _, b := range a.Byz {
+				r.Inject(id, a.mk(qbft.MsgPrepare, b, round, val, 0, 0, nil))
+				r.Inject(id, a.mk(qbft.MsgCommit, b, round, val, 0, 0, nil))
+			}
 		}
 	case "votes":
 		// vote for every value some PRE-PREPARE carried in the targets' current rounds (both PREPARE and COMMIT)
